@@ -127,13 +127,23 @@ def gen_calls(g, n, ids_hint=(), allow=(), kinds=None):
             txt = g.json_text(v).encode()
             if 'badjson' in allow and r.random() < 0.1:
                 txt, form = g.bad_json().encode(), r.choice(['s', 'b'])
-            calls.append(Call(k, txt, form))
+            calls.append(Call(k, txt, form, user_matchers(r)))
         else:
             txt = g.yaml_text().encode()
             if 'badyaml' in allow and r.random() < 0.1:
                 txt = g.bad_yaml().encode()
-            calls.append(Call('yaml', txt, r.choice(['s', 'b'])))
+            calls.append(Call('yaml', txt, r.choice(['s', 'b']), user_matchers(r)))
     return calls
+
+
+def user_matchers(r):
+    """now and then a JSON/YAML call carries user-defined matchers that only inspect the document (they
+    report success as nil or as an empty non-nil slice, hand on the slice they got or a copy): what is
+    stored and compared is the same as without them, and the caller's []byte stays as it was"""
+    if r.random() >= 0.15:
+        return ()
+    import docs
+    return tuple(docs.user_matcher(r.random() < 0.5, r.random() < 0.3) for _ in range(r.randint(1, 2)))
 
 
 def gen_history(g, allow=(), max_tests=4, max_calls=8, kinds=None, ncfg=None):
@@ -161,6 +171,13 @@ def gen_history(g, allow=(), max_tests=4, max_calls=8, kinds=None, ncfg=None):
                 if 'nosafn' in allow or sa_owner.setdefault(cfgno, n) != n:
                     c.kind = 'snap' if c.kind == 'sasnap' else 'json'
             calls.append((cfgno, c))
+        bad = [x for x in ('badjson', 'badyaml') if x in allow]
+        if bad and r.random() < 0.06:
+            # a test ALL of whose calls are rejected at validation: it takes ordinals and nothing else (a
+            # later execution of the same test starts at slot 1 again)
+            cfgno = r.randint(1, ncfg)
+            calls = [(cfgno, Call('json', g.bad_json().encode(), r.choice(['s', 'b'])) if r.choice(bad) == 'badjson'
+                      else Call('yaml', g.bad_yaml().encode(), r.choice(['s', 'b']))) for _ in range(r.choice([1, 1, 2]))]
         h.execs.append((n, calls))
     for n, calls in h.execs:
         for _, c in calls:
